@@ -77,6 +77,28 @@ func okKind(fn int, k refmodel.Kind) bool {
 	return true
 }
 
+// scribbleSpare writes into the spare capacity of every slice of a result, which the caller owns
+// (it is what append would do), and changes nothing else: the result must still read the same
+// afterwards, i.e. no other part of it - and no other result - may live in that spare capacity
+// (seeded change C16r6-m1: the next array decoded into the leftover capacity of an empty one that
+// had already been handed out).
+func scribbleSpare(v interface{}) {
+	switch t := v.(type) {
+	case []interface{}:
+		full := t[:cap(t)]
+		for i := len(t); i < len(full); i++ {
+			full[i] = "SCRIBBLED-SPARE"
+		}
+		for i := range t {
+			scribbleSpare(t[i])
+		}
+	case map[string]interface{}:
+		for _, x := range t {
+			scribbleSpare(x)
+		}
+	}
+}
+
 type kept struct {
 	orig interface{}
 	snap interface{}
@@ -192,6 +214,17 @@ func RunC15(c *Ctx) {
 					}
 				}
 			}
+			// the caller appends to / fills the spare capacity of what it was just given: neither this
+			// result nor any earlier one may change
+			if e1 == nil && e2 == nil {
+				scribbleSpare(v1)
+				c.Rec.C("results_whose_spare_capacity_was_overwritten")
+				if !refmodel.EqTree(v1, v2) {
+					c.Rec.AddViolation(h.Violation{Property: c.Prop, Oracle: "a result changed when the caller wrote into the spare capacity of its own slices (parts of the result share a backing array)", Entry: "ValueReader." + vrFnNames[fn], Family: "W9", Desc: cs.Desc,
+						InputB64: b64(doc), InputQ: h.Quote(doc), Script: script, Expected: show(v2), Observed: show(v1),
+						Seed: c.Seed, Tier: c.Tier, Key: fmt.Sprintf("C15|spare|history=%d|call=%d", index, i)})
+				}
+			}
 			// every value returned earlier must still equal the snapshot taken when it was returned
 			for ki := range keep {
 				c.Rec.C("snapshots_reverified")
@@ -219,11 +252,24 @@ func RunC15(c *Ctx) {
 					c.Rec.C("values_kept_under_watch")
 					// now and then the caller modifies the latest result
 					if r.Intn(3) == 0 {
-						last := &keep[len(keep)-1]
+						// mostly the latest result, sometimes an older one (its neighbours in memory may be
+						// NEWER results)
+						li := len(keep) - 1
+						if r.Intn(3) == 0 {
+							li = r.Intn(len(keep))
+						}
+						last := &keep[li]
+						if _, isStr := last.orig.(string); isStr {
+							li = len(keep) - 1
+							last = &keep[li]
+						}
 						scribble(last.orig, 0)
 						last.snap = refmodel.CopyTree(last.orig)
 						c.Rec.C("caller_modifications_of_latest_result")
-						for ki := 0; ki < len(keep)-1; ki++ {
+						for ki := 0; ki < len(keep); ki++ {
+							if ki == li {
+								continue
+							}
 							if !refmodel.EqTree(keep[ki].orig, keep[ki].snap) {
 								c.Rec.AddViolation(h.Violation{Property: c.Prop, Oracle: "a value returned earlier changed when the caller modified a later result", Entry: "ValueReader." + vrFnNames[fn], Family: "W9", Desc: cs.Desc,
 									InputB64: b64(doc), InputQ: h.Quote(doc), Script: script, Expected: fmt.Sprintf("value from %s unchanged: %s", keep[ki].from, show(keep[ki].snap)), Observed: show(keep[ki].orig),
